@@ -67,3 +67,25 @@ Definition oracle_case (k : case) : bool :=
   | Checked _ _ ok => ok
   | _ => true
   end.
+
+(* a probe made on the Go side that reproduces a known finding (F24: over HTTP a handler that has not read
+   its request to the end is not told of the caller's cancellation) *)
+Definition is_finding_kind (k : string) : bool := String.eqb k "F24".
+
+Definition check_c04 (k : case) : bool :=
+  match k with
+  | Checked kind _ ok => if is_finding_kind kind then true else ok
+  | _ => check_case k
+  end.
+
+Definition oracle_c04 (k : case) : bool :=
+  match k with
+  | Checked kind _ ok => if is_finding_kind kind then true else ok
+  | _ => oracle_case k
+  end.
+
+Definition finding_c04 (k : case) : option string :=
+  match k with
+  | Checked kind _ false => if is_finding_kind kind then Some kind else None
+  | _ => None
+  end.
